@@ -26,6 +26,7 @@ def ofOpt {α : Type} (f : α → J) : Option α → J
                                   "lexs": lexString (encodeStr s), "lexq": lexString (quoteStr s),
                                   "lexn": lexNumber (encodeStr s)}
   {"op":"lex","t":"…"}        → {"s": lexString t, "n": lexNumber t}
+  {"op":"tok","t":"…"}        → {"toks": texts of tokenize t, "parsed": parseChars t}
 -/
 def handle (j : J) : Except String J := do
   let op ← j.getStr "op"
@@ -35,6 +36,8 @@ def handle (j : J) : Except String J := do
     pure (.obj [("t", .str (encodeCel v)),
                 ("toks", .bool (toksText (toks v) == enc v)),
                 ("parsed", ofOpt ofCVal (parse (toks v))),
+                ("chars", ofOpt ofCVal (parseChars (enc v))),
+                ("tokenized", .bool (tokenize (enc v) == some (toks v))),
                 ("want", ofCVal (numeralise v)),
                 ("noExpr", .bool (noExpr v))])
   | "str" =>
@@ -45,6 +48,10 @@ def handle (j : J) : Except String J := do
                 ("lexs", ofOpt (fun x => J.str (String.ofList x)) (lexString (encodeStr s))),
                 ("lexq", ofOpt (fun x => J.str (String.ofList x)) (lexString (quoteStr s))),
                 ("lexn", ofOpt ofNum (lexNumber (encodeStr s)))])
+  | "tok" =>
+    let t := (← j.getStr "t").toList
+    pure (.obj [("toks", ofOpt (fun ts => J.arr (ts.map fun tk => J.str (String.ofList tk.text))) (tokenize t)),
+                ("parsed", ofOpt ofCVal (parseChars t))])
   | "lex" =>
     let t := (← j.getStr "t").toList
     pure (.obj [("s", ofOpt (fun x => J.str (String.ofList x)) (lexString t)),
